@@ -45,6 +45,29 @@ Definition dispatch (kind : string) (args : list string) : string :=
              end
     | _ => BADARGS
     end
+  else if String.eqb kind "icmp4fin" then
+    (* icmp4SendPacket: ICMP(p).SetChecksum(Checksum(p)) on a message whose checksum field is zero *)
+    match args with
+    | [h] => match bytes_of_tok h with
+             | Some p => let r := icmp_set_checksum p (checksum p) in
+                         out3 (tok_of_bytes r ++ " " ++ show_bool (verifiesb r)) "-" "-"
+             | None => BADARGS
+             end
+    | _ => BADARGS
+    end
+  else if String.eqb kind "icmp6fin" then
+    (* icmp6SendPacket: checksum over the 40-byte pseudo header ++ message, stored in the message *)
+    match args with
+    | [s; d; h] =>
+        match bytes_of_tok s, bytes_of_tok d, bytes_of_tok h with
+        | Some src, Some dst, Some p =>
+            let psh := icmp6_pseudo src dst (N.of_nat (List.length p)) in
+            let r := icmp_set_checksum p (checksum (psh ++ p)%list) in
+            out3 (tok_of_bytes r ++ " " ++ show_bool (verifiesb (psh ++ r)%list)) "-" "-"
+        | _, _, _ => BADARGS
+        end
+    | _ => BADARGS
+    end
   else BADARGS.
 
 Definition dispatch_line (l : string) : string :=
